@@ -173,6 +173,8 @@ impl tower::Service<Request<Bytes>> for AppService {
                 "digest": digest(req.body()),
                 "hdigest": headers_digest(req.headers()),
                 "nheaders": req.headers().len(),
+                "hsize": 8 + req.route().len() + 8
+                    + req.headers().iter().map(|(k, v)| 16 + k.len() + v.len()).sum::<usize>(),
             }),
         );
         let mut guard = AppGuard {
@@ -219,6 +221,8 @@ impl tower::Service<Request<Bytes>> for AppService {
                     "len": response.body().len(),
                     "digest": digest(response.body()),
                     "hdigest": headers_digest(response.headers()),
+                    "hsize": 2 + 8
+                        + response.headers().iter().map(|(k, v)| 16 + k.len() + v.len()).sum::<usize>(),
                 }),
             );
             Ok(response)
